@@ -1133,6 +1133,18 @@ func (w *worker) runCombine(ctx context.Context, task *Task, taskStats *stats.Ma
 	defer func() {
 		w.mu.Lock()
 		w.combinerStates[combineKey]--
+		if err != nil && task.CombineKey == "" {
+			// The per-task combine buffers hold what this failed attempt
+			// combined. Drop them, so that a retry of the task starts from
+			// empty buffers instead of combining the same rows again.
+			for _, c := range combiners {
+				if discardErr := (<-c).Discard(); discardErr != nil {
+					log.Error.Printf("error discarding combiner: %v", discardErr)
+				}
+			}
+			delete(w.combiners, combineKey)
+			w.combinerStates[combineKey] = combinerNone
+		}
 		w.mu.Unlock()
 		if err == nil && task.CombineKey == "" {
 			taskWriteDuration := taskStats.Int("writeDuration")
